@@ -304,7 +304,9 @@ func genHelpNode(r *rand.Rand, name string, depth int, parent *hNode, version bo
 		}
 		c.Spec = n.spec
 		c.LongDesc = n.longDesc
-		c.Hidden = n.hidden
+		if n.hidden {
+			c.Hidden = true // assigned before the subcommands are declared, and only when set
+		}
 		c.Action = func() {}
 		for _, k := range n.kids {
 			k := k
